@@ -145,4 +145,6 @@ def run(ctx):
     rep.floor('R05.3', 'authenticated strings checked', len(seen_strings), 7)
     from rules import profile
     profile.check(ctx, rep, 'R05.P', ['creg_finish', 'clog_finish', 'slog_start', 'sreg_start'])
+    from rules import lclone
+    lclone.check(ctx, rep, 'R05.C')
     return rep
